@@ -142,6 +142,7 @@ type srcRule struct {
 	required    []string
 	pag         int
 	pagPresent  bool
+	exp         *int // expiration = now + exp seconds (only far offsets: the text is parsed many times during a case)
 }
 
 func optInt(p *int) string {
@@ -168,7 +169,7 @@ func (r srcRule) enc() string {
 		leg = "-"
 	}
 	return strings.Join([]string{vh.HexS(r.path), csvOrDash(r.caps), leg, optInt(r.min), optInt(r.max),
-		r.allowed.enc(), r.denied.enc(), csvOrDash(req), strconv.Itoa(r.pag)}, "|")
+		r.allowed.enc(), r.denied.enc(), csvOrDash(req), strconv.Itoa(r.pag), optInt(r.exp)}, "|")
 }
 
 func quoteAll(xs []string) string {
@@ -205,6 +206,9 @@ func (r srcRule) hcl() string {
 	}
 	if r.pagPresent {
 		b.WriteString("  pagination_limit = " + strconv.Itoa(r.pag) + "\n")
+	}
+	if r.exp != nil {
+		b.WriteString("  expiration = " + strconv.Quote(time.Now().Add(time.Duration(*r.exp)*time.Second).UTC().Format(time.RFC3339)) + "\n")
 	}
 	b.WriteString("}\n")
 	return b.String()
@@ -247,6 +251,16 @@ func showPM(m map[string][]any) string {
 	return strings.Join(es, ";")
 }
 
+func expClass(t time.Time) string {
+	switch {
+	case t.IsZero():
+		return "-"
+	case t.After(time.Now()):
+		return "fut"
+	}
+	return "past"
+}
+
 func showParsed(p *policy.Policy) string {
 	if len(p.Paths) == 0 {
 		return "ok -"
@@ -266,7 +280,7 @@ func showParsed(p *policy.Policy) string {
 		}
 		rs[i] = strings.Join([]string{vh.HexS(pr.Path), kind, strconv.FormatUint(uint64(pm.CapabilitiesBitmap), 10),
 			durSec(pm.MinWrappingTTL), durSec(pm.MaxWrappingTTL), showPM(pm.AllowedParameters), showPM(pm.DeniedParameters),
-			csvOrDash(req), strconv.Itoa(pm.PaginationLimit)}, "|")
+			csvOrDash(req), strconv.Itoa(pm.PaginationLimit), expClass(pr.Expiration)}, "|")
 	}
 	return "ok " + strings.Join(rs, "&")
 }
@@ -354,7 +368,26 @@ type env struct {
 	rng   *vh.Rand
 	pols  []*srcPolicy
 	slots map[int]*policy.ACL
-	t     *testing.T
+	// shadow[slot]: the ACL built from the same policies with the expired stanzas REMOVED and no expiration left on
+	// the others (nil when no stanza of the slot carries an expiration)
+	shadow map[int]*policy.ACL
+	t      *testing.T
+}
+
+// override: before NewACL, set Paths[stanza].Expiration of the k-th attached (freshly parsed) policy object to
+// now+off seconds, or to the zero time. This plays the cached policy whose stanza expires while it sits in the LRU.
+type override struct {
+	k, stanza int
+	off       int
+	zero      bool
+}
+
+func (o override) enc() string {
+	off := "z"
+	if !o.zero {
+		off = strconv.Itoa(o.off)
+	}
+	return strconv.Itoa(o.k) + ":" + strconv.Itoa(o.stanza) + ":" + off
 }
 
 func (e *env) addPolicy(name string, rules []srcRule) *srcPolicy {
@@ -413,26 +446,78 @@ func (e *env) reparse(name string, rules []srcRule) {
 }
 
 // attach builds an ACL over the policies with the given indices (-1 = nil entry)
-func (e *env) attach(slot int, shared bool, idxs []int) bool {
-	ps := make([]*policy.Policy, 0, len(idxs))
+func (e *env) attach(slot int, shared bool, idxs []int) bool { return e.attachOv(slot, shared, idxs, nil) }
+
+func (e *env) attachOv(slot int, shared bool, idxs []int, ovs []override) bool {
+	build := func() []*policy.Policy {
+		ps := make([]*policy.Policy, 0, len(idxs))
+		for _, ix := range idxs {
+			if ix < 0 {
+				ps = append(ps, nil)
+				continue
+			}
+			sp := e.pols[ix]
+			if shared {
+				ps = append(ps, sp.shared)
+			} else {
+				p, err := policy.ParseACLPolicy(namespace.RootNamespace, sp.text)
+				if err != nil {
+					e.t.Fatalf("re-parse failed: %v", err)
+				}
+				p.Name = sp.name
+				ps = append(ps, p)
+			}
+		}
+		return ps
+	}
 	enc := make([]string, len(idxs))
 	for i, ix := range idxs {
-		if ix < 0 {
-			ps = append(ps, nil)
-			enc[i] = "n"
-			continue
+		enc[i] = "n"
+		if ix >= 0 {
+			enc[i] = strconv.Itoa(ix)
 		}
-		enc[i] = strconv.Itoa(ix)
-		sp := e.pols[ix]
-		if shared {
-			ps = append(ps, sp.shared)
+	}
+	ps := build()
+	now := time.Now()
+	for _, o := range ovs {
+		if o.zero {
+			ps[o.k].Paths[o.stanza].Expiration = time.Time{}
 		} else {
-			p, err := policy.ParseACLPolicy(namespace.RootNamespace, sp.text)
-			if err != nil {
-				e.t.Fatalf("re-parse failed: %v", err)
+			ps[o.k].Paths[o.stanza].Expiration = now.Add(time.Duration(o.off) * time.Second)
+		}
+	}
+	// the shadow: expired stanzas removed by hand, nothing left for NewACL's expiry test to do
+	delete(e.shadow, slot)
+	if !shared {
+		any := false
+		for _, p := range ps {
+			if p == nil {
+				continue
 			}
-			p.Name = sp.name
-			ps = append(ps, p)
+			for _, pr := range p.Paths {
+				any = any || !pr.Expiration.IsZero()
+			}
+		}
+		if any {
+			sh := build()
+			for k, p := range ps {
+				if p == nil {
+					continue
+				}
+				var keep []*policy.PathRules
+				for i, pr := range p.Paths {
+					if !pr.Expiration.IsZero() && pr.Expiration.Before(now) {
+						continue
+					}
+					q := sh[k].Paths[i]
+					q.Expiration = time.Time{}
+					keep = append(keep, q)
+				}
+				sh[k].Paths = keep
+			}
+			if acl, err := policy.NewACL(e.ctx, sh); err == nil {
+				e.shadow[slot] = acl
+			}
 		}
 	}
 	mode := "fresh"
@@ -456,9 +541,19 @@ func (e *env) attach(slot int, shared bool, idxs []int) bool {
 	if len(enc) > 0 {
 		idxEnc = strings.Join(enc, ",")
 	}
-	e.out.Op(res, "attach", strconv.Itoa(slot), mode, idxEnc)
+	ovEnc := "-"
+	if len(ovs) > 0 {
+		oe := make([]string, len(ovs))
+		for i, o := range ovs {
+			oe[i] = o.enc()
+		}
+		ovEnc = strings.Join(oe, ";")
+	}
+	e.out.Op(res, "attach", strconv.Itoa(slot), mode, idxEnc, ovEnc)
 	return okk
 }
+
+const expiredMarker = "!VIOL:a stanza whose expiration has passed when the ACL is built still contributes to the decision (differs from the ACL built without it)"
 
 func (e *env) evalAllow(slot int, cc bool, r request) string {
 	acl := e.slots[slot]
@@ -471,6 +566,15 @@ func (e *env) evalAllow(slot int, cc bool, r request) string {
 
 func (e *env) allow(slot int, cc bool, r request, marker string) string {
 	res := e.evalAllow(slot, cc, r)
+	if sh := e.shadow[slot]; sh != nil && marker == "" {
+		want := vh.Catch(func() string {
+			req := r.build(false)
+			return showRes(sh.AllowOperation(e.ctx, req, cc), req)
+		})
+		if want != res {
+			marker = expiredMarker
+		}
+	}
 	e.out.Op(res+marker, "allow", strconv.Itoa(slot), b01(cc), r.op, vh.HexS(r.path), r.dataEnc(), optInt(r.wrap))
 	return res
 }
@@ -524,6 +628,11 @@ func (e *env) caps(slot int, path string) {
 					sig = "#caps-trailing-slash-list-fallback"
 				}
 				marker = "!VIOL:" + bad + sig
+			}
+		}
+		if sh := e.shadow[slot]; sh != nil && marker == "" {
+			if strings.Join(sh.Capabilities(e.ctx, path), ",") != strings.Join(cs, ",") {
+				marker = expiredMarker
 			}
 		}
 		return strings.Join(cs, ",")
@@ -767,6 +876,12 @@ func genRule(rng *vh.Rand, pattern string, negTTL bool) srcRule {
 			r.required = append(r.required, rng.Pick([]string{"k", "j", "limit", "K", "Limit", "x"}))
 		}
 	}
+	switch x := rng.Intn(100); {
+	case x < 3:
+		r.exp = ip(-315360000) // ten years ago: dropped by parsePaths, whatever else the stanza says
+	case x < 8:
+		r.exp = ip(315360000)
+	}
 	if rng.Chance(22) {
 		r.pagPresent = true
 		r.pag = []int{1, 5, 10, 10, 5, 0, -1}[rng.Intn(7)]
@@ -908,7 +1023,7 @@ func shuffled(rng *vh.Rand, xs []int) []int {
 
 func newEnv(t *testing.T, out *vh.Out, rng *vh.Rand) *env {
 	out.Reset()
-	return &env{ctx: namespace.RootContext(context.Background()), out: out, rng: rng, slots: map[int]*policy.ACL{}, t: t}
+	return &env{ctx: namespace.RootContext(context.Background()), out: out, rng: rng, slots: map[int]*policy.ACL{}, shadow: map[int]*policy.ACL{}, t: t}
 }
 
 func simpleRule(path string, caps ...string) srcRule {
@@ -975,6 +1090,27 @@ func fixedCases(t *testing.T, out *vh.Out, rng *vh.Rand) {
 	}
 	e.sharedProbe(0, []int{1, 0}, 1, []int{2, 0}, reqs)
 	e.sharedProbe(2, []int{0, 1}, 3, []int{0, 2}, reqs)
+	// stanza expiration while the parsed policy object is cached: "kv/*" read for ever, "kv/secret" read+update+sudo
+	// until an instant that passes 5 s before / 30 s after the ACL is built; a stanza expired ten years ago is dropped
+	// by the parser together with its otherwise invalid content
+	e = newEnv(t, out, rng)
+	rs := simpleRule("kv/secret", "read", "update", "sudo")
+	rs.exp = ip(315360000)
+	rold := simpleRule("kv/+*", "bogus")
+	rold.exp = ip(-315360000)
+	rdn := simpleRule("kv/locked", "deny")
+	e.addPolicy("exp", []srcRule{simpleRule("kv/*", "read"), rs, rold, rdn})
+	for i, ovs := range [][]override{nil, {{k: 0, stanza: 1, off: -5}}, {{k: 0, stanza: 1, off: 30}}, {{k: 0, stanza: 1, zero: true}},
+		{{k: 0, stanza: 2, off: -5}}, {{k: 0, stanza: 0, off: -3600}, {k: 0, stanza: 1, off: -5}}} {
+		if e.attachOv(i, false, []int{0}, ovs) {
+			for _, p := range []string{"kv/secret", "kv/locked", "kv/other"} {
+				e.allow(i, false, request{path: p, op: "update"}, "")
+				e.allow(i, false, request{path: p, op: "read"}, "")
+				e.allow(i, true, request{path: p, op: "read"}, "")
+				e.caps(i, p)
+			}
+		}
+	}
 	// witness of F21 (repaired: two parameter names differing only in case are a parse error now; stays armed: 300
 	// parses of the same text must give the same result)
 	e = newEnv(t, out, rng)
@@ -1221,12 +1357,40 @@ func randomCase(t *testing.T, out *vh.Out, rng *vh.Rand) {
 	if rng.Chance(3) {
 		order1 = append(order1, -1)
 	}
-	if e.attach(0, false, order1) {
+	genOvs := func(order []int) []override {
+		if !rng.Chance(30) {
+			return nil
+		}
+		var ovs []override
+		for k, ix := range order {
+			if ix < 0 {
+				continue
+			}
+			for si := range e.pols[ix].shared.Paths {
+				if rng.Chance(25) {
+					o := override{k: k, stanza: si, off: []int{-3600, -5, 30, 3600}[rng.Intn(4)]}
+					if rng.Chance(10) {
+						o.zero = true
+					}
+					ovs = append(ovs, o)
+				}
+			}
+		}
+		return ovs
+	}
+	if e.attachOv(0, false, order1, genOvs(order1)) {
 		run(0)
 	}
 	order2 := shuffled(rng, att)
-	if e.attach(1, false, order2) {
+	if e.attachOv(1, false, order2, nil) {
 		run(1)
+	}
+	if rng.Chance(15) {
+		// the same policies once more, now with stanzas that expired while the parsed objects were cached
+		order3 := shuffled(rng, att)
+		if ovs := genOvs(order3); len(ovs) > 0 && e.attachOv(4, false, order3, ovs) {
+			run(4)
+		}
 	}
 	if rng.Chance(20) && len(okIdx) >= 2 {
 		// policy objects shared between two ACLs, as with the policy store's cache
